@@ -23,6 +23,9 @@ pub trait Fl:
     const ONE: Self;
     /// exponent range (log2) the accuracy properties quantify over
     const LOG_RANGE: f64;
+    /// binary exponent limits of the normal range (as f64)
+    const MAX_EXP2: f64;
+    const MIN_EXP2: f64;
     fn bits(self) -> u64;
     fn from_bits64(b: u64) -> Self;
     fn f64(self) -> f64;
@@ -161,6 +164,8 @@ impl Fl for f32 {
     const ZERO: Self = 0.0;
     const ONE: Self = 1.0;
     const LOG_RANGE: f64 = 40.0;
+    const MAX_EXP2: f64 = 128.0;
+    const MIN_EXP2: f64 = -126.0;
     #[inline]
     fn bits(self) -> u64 {
         self.to_bits() as u64
@@ -207,6 +212,8 @@ impl Fl for f64 {
     const ZERO: Self = 0.0;
     const ONE: Self = 1.0;
     const LOG_RANGE: f64 = 300.0;
+    const MAX_EXP2: f64 = 1024.0;
+    const MIN_EXP2: f64 = -1022.0;
     #[inline]
     fn bits(self) -> u64 {
         self.to_bits()
